@@ -62,6 +62,9 @@ func (c *monC02) After(m *Machine, s *Step) *Violation {
 	if !has {
 		return nil
 	}
+	if m.rotationOwner(s) == after {
+		return nil // re-authenticated by its remember cookie in this request: outside this monitor (C07)
+	}
 	totpOn, smsOn := factorEnabled(m, pre)
 	if !totpOn && !smsOn {
 		return nil
